@@ -46,6 +46,8 @@ def main():
         tier = sys.argv[sys.argv.index('--tier') + 1]
     tests = '--no-tests' not in sys.argv
     src = '/tmp/seed/%s.out3' % prop
+    if '--src' in sys.argv:                      # later rounds: .out6, ...
+        src = '/tmp/seed/%s.%s' % (prop, sys.argv[sys.argv.index('--src') + 1])
     metas = {}
     try:
         for c in json.load(open(os.path.join(src, 'meta.json')))['changes']:
